@@ -75,6 +75,10 @@ if exe:
         for c, r in zip(bad, res):
             judge(c, r, nm)
     nontriv = len(bad)
+    # --- stdin again, under random granularities / slots / worker counts
+    res, confs = D.run_configs(ck, exe, bad, timeout=120)
+    for c, r, (n, env) in zip(bad, res, confs):
+        judge(c, r, 'stdin with %s -n%d' % (env, n))
     # --- FILE operand: no output file may remain
     sub = bad if not ck.quick else rng.sample(bad, min(len(bad), 200))
     root = os.path.join(ck.tmp, 'files')
